@@ -139,15 +139,20 @@ def main():
     if os.path.exists(out_path):
         results = json.load(open(out_path))
     env = dict(os.environ, VERIF_REPO=WT, VERIF_RUNS=os.environ.get("VERIF_RUNS", "32000"))
+    import fcntl
+    lock = open("/tmp/probe_repo.lock", "w")
     for (name, prop, path, old, new) in PROBES:
         if sel and not any(s in name for s in sel):
             continue
+        # one user of the scratch worktree at a time (edit .. check .. undo)
+        fcntl.flock(lock, fcntl.LOCK_EX)
         sh(f"git -C {WT} checkout -- .")
         f = os.path.join(WT, path)
         s = open(f).read()
         if s.count(old) != 1:
             print(f"{name}: pattern occurs {s.count(old)} times -- skipped")
             results[name] = {"property": prop, "result": "pattern-mismatch"}
+            fcntl.flock(lock, fcntl.LOCK_UN)
             continue
         open(f, "w").write(s.replace(old, new))
         diff = sh(f"git -C {WT} diff").stdout
@@ -164,6 +169,8 @@ def main():
         }
         print(f"{name} [{prop}]: {results[name]['result']}  {viol[0][:160] if viol else (lines[-1] if lines else '')}")
         json.dump(results, open(out_path, "w"), indent=1)
+        sh(f"git -C {WT} checkout -- .")
+        fcntl.flock(lock, fcntl.LOCK_UN)
     sh(f"git -C {WT} checkout -- .")
     return 0
 
